@@ -1,6 +1,7 @@
 package engines
 
 import (
+	"bytes"
 	"fmt"
 	"syscall"
 	"unsafe"
@@ -31,6 +32,14 @@ type slab struct {
 var slabPool []*slab
 
 func canaryByte(i int) byte { return byte(0xA5 ^ (i * 7)) }
+
+var canaryPage = func() []byte {
+	p := make([]byte, slabPage)
+	for i := range p {
+		p[i] = canaryByte(i)
+	}
+	return p
+}()
 
 func newSlab() (*slab, error) {
 	mem, err := syscall.Mmap(-1, 0, 2*slabGuard+slabPage, syscall.PROT_NONE, syscall.MAP_ANON|syscall.MAP_PRIVATE)
@@ -75,9 +84,7 @@ func acquireSlab(n int, right bool) *slab {
 	} else {
 		s.off = 0
 	}
-	for i := range s.page {
-		s.page[i] = canaryByte(i)
-	}
+	copy(s.page, canaryPage)
 	s.buf = s.page[s.off : s.off+n : s.off+n]
 	for i := range s.buf {
 		s.buf[i] = 0
@@ -101,6 +108,9 @@ func (s *slab) release() { s.inUse = false }
 // canaryOK verifies the bytes of the RW page outside the buffer. It returns the page offset of the first damaged byte.
 func (s *slab) canaryOK() (int, bool) {
 	if s.revoked {
+		return 0, true
+	}
+	if bytes.Equal(s.page[:s.off], canaryPage[:s.off]) && bytes.Equal(s.page[s.off+s.n:], canaryPage[s.off+s.n:]) {
 		return 0, true
 	}
 	for i := 0; i < s.off; i++ {
